@@ -166,6 +166,9 @@ pub fn run(case: &Value, _params: &Params, out: &mut Vec<Value>) {
                     let q0 = [qs[0]];
                     emit(out, &c1, "quantile_axis_mut", order, guarded(|| qres(an.clone().quantile_axis_mut(Axis(axis), n64(qs[0]), &Lower).map(|_| ()), &q0)), None);
                     emit(out, &c1, "quantile_axis_skipnan_mut", order, guarded(|| qres(a.clone().quantile_axis_skipnan_mut(Axis(axis), n64(qs[0]), &Lower).map(|_| ()), &q0)), None);
+                    // the same request on data without a single non-missing value: the answer to an invalid q does not depend on the data
+                    let allnan = a.mapv(|_| f64::NAN);
+                    emit(out, &c1, "quantile_axis_skipnan_mut_all_missing", order, guarded(|| qres(allnan.clone().quantile_axis_skipnan_mut(Axis(axis), n64(qs[0]), &Lower).map(|_| ()), &q0)), None);
                     if s1.len() == 1 {
                         let a1 = an.clone().into_dimensionality::<Ix1>().unwrap();
                         emit(out, &c1, "quantile_mut", order, guarded(|| qres(a1.clone().quantile_mut(n64(qs[0]), &Linear).map(|_| ()), &q0)), None);
